@@ -280,8 +280,17 @@ func (w *fsWorker) step(q harness.Req) (resp harness.Resp, after harness.Tree, c
 
 // exploreFS runs every request of reqs in every state, calling visit for each transition.
 func exploreFS(r *engine.Run, states []harness.Tree, reqs []harness.Req, visit func(v *fsVisit)) {
+	exploreFSx(r, states, reqs, nil, visit)
+}
+
+// exploreFSx additionally runs per-state requests computed from the state and its probe
+// (e.g. conditional headers carrying the current entity tag).
+func exploreFSx(r *engine.Run, states []harness.Tree, reqs []harness.Req, extra func(t harness.Tree, probe map[string]fileProbe) []harness.Req, visit func(v *fsVisit)) {
 	const block = 1500
 	nb := (len(reqs) + block - 1) / block
+	if extra != nil {
+		nb++ // the last block of every state holds the per-state requests
+	}
 	defer harness.Cleanup()
 	type unit struct{ si, bi int }
 	workers := make(chan *fsWorker, 64)
@@ -302,10 +311,19 @@ func exploreFS(r *engine.Run, states []harness.Tree, reqs []harness.Req, visit f
 		if hi > len(reqs) {
 			hi = len(reqs)
 		}
+		list := reqs
+		if extra != nil && bi == nb-1 {
+			list = extra(states[si], w.probe)
+			lo, hi = 0, len(list)
+		}
 		for ri := lo; ri < hi; ri++ {
-			resp, after, changed := w.step(reqs[ri])
+			resp, after, changed := w.step(list[ri])
 			s.Transition()
-			visit(&fsVisit{S: s, Index: int64(si)*int64(len(reqs)) + int64(ri), State: states[si], Req: reqs[ri], Resp: resp, After: after,
+			idx := int64(si)<<24 | int64(ri)
+			if extra != nil && bi == nb-1 {
+				idx |= 1 << 23
+			}
+			visit(&fsVisit{S: s, Index: idx, State: states[si], Req: list[ri], Resp: resp, After: after,
 				Root: w.root, RootReal: w.rootReal, Probe: w.probe, Changed: changed})
 		}
 	})
